@@ -146,23 +146,42 @@ def judge(ctx, items, configs, prelude=DEFAULT_PRELUDE, batch=120, tag="w"):
         for cn, v in per.items():
             if v is None or v.rejected != (it.expect == "reject"):
                 solo_jobs.append((k, cn))
-    if len(solo_jobs) > max(400, len(items)):
-        raise AnalysisBroken("%d witnesses need a solo re-judgement (batches not judged to their end?)" % len(solo_jobs))
+    unjudged = [(k, cn) for (k, cn) in solo_jobs if out[k][cn] is None]
+    if len(unjudged) > max(400, len(items)):
+        raise AnalysisBroken("%d witnesses need a solo re-judgement (batches not judged to their end?)" % len(unjudged))
     cfgmap = {c.name: c for c in configs}
 
     def solo(job):
         k, cn = job
         return k, cn, judge_solo(ctx, bykey[k], cfgmap[cn], prelude, wd, tag)
 
-    for k, cn, v in cxx.pmap(solo, solo_jobs):
+    # every unjudged witness is judged alone; of the judged mismatches the first SOLO_CAP are
+    # confirmed alone, and the rest only if none of those was confirmed (a change that breaks
+    # hundreds of witnesses is reported through the first SOLO_CAP, not through all of them)
+    mism = [j for j in solo_jobs if out[j[0]][j[1]] is not None]
+    first, rest = mism[:SOLO_CAP], mism[SOLO_CAP:]
+    confirmed = 0
+    for k, cn, v in cxx.pmap(solo, unjudged + first):
         out[k][cn] = v
+        if v.rejected != (bykey[k].expect == "reject"):
+            confirmed += 1
+    skipped = 0
+    if rest and confirmed:
+        skipped = len(rest)
+        for k, cn in rest:
+            exp = bykey[k].expect == "reject"
+            out[k][cn] = Verdict(exp, ["(batch verdict disagreed; not re-judged alone: %d other mismatches were confirmed first)" % confirmed], solo=False)
+    else:
+        for k, cn, v in cxx.pmap(solo, rest):
+            out[k][cn] = v
     stats = dict(programs=len(jobs), witnesses=len(items), configs=[c.name for c in configs],
-                 solo_rechecks=len(solo_jobs), unattributed_errors=unatt_total,
+                 solo_rechecks=len(solo_jobs) - skipped, mismatches_not_rejudged=skipped, unattributed_errors=unatt_total,
                  unattributed_samples=unatt_samples[:5])
     return out, stats
 
 
 _solo_n = [0]
+SOLO_CAP = 300
 
 
 def judge_solo(ctx, it, cfg, prelude=DEFAULT_PRELUDE, wd=None, tag="w"):
